@@ -3,7 +3,7 @@
 import ast
 
 from ..core.analysis import Analysis, facts
-from ..core.astutil import enclosing_trys, handler_catches, method_calls
+from ..core.astutil import enclosing_trys, handler_catches, method_calls, path_templates
 from ..core.cfg import handler_names
 from ..core.pyrepo import Repo, calls_in, dotted, norm_stmt
 
@@ -142,13 +142,15 @@ def run(ctx):
         if fi.cls != "Process":
             continue
         for c in calls_in(fi.node):
-            if dotted(c.func) in openers and c.args and isinstance(c.args[0], ast.JoinedStr):
-                tmpl = _template(c.args[0])
-                if "{self.pid}" not in tmpl:
-                    continue
-                tail = tmpl.rsplit("}", 1)[-1]
-                if tail in ("/stat", "/status", "/smaps"):
-                    found.setdefault(tail, []).append((fi, c))
+            if dotted(c.func) in openers and c.args:
+                # every path the argument can denote: temporaries, string building
+                # and parameters (default + constants passed by callers) resolved
+                for tmpl in sorted(path_templates(repo, fi, c.args[0])):
+                    if "{self.pid}" not in tmpl:
+                        continue
+                    tail = tmpl.split("{self.pid}", 1)[1]   # <pid>/task/<tid>/stat is another record
+                    if tail in ("/stat", "/status", "/smaps"):
+                        found.setdefault(tail, []).append((fi, c))
     ctx.require(set(found) == {"/stat", "/status", "/smaps"},
                 f"per-process record readers not found: {sorted(found)}")
     enter = {m for m, _ in _activations(
